@@ -280,18 +280,24 @@ class Net:
         """The dict handed to Component(transports=[...]) for transport i."""
         t = self.tcfgs[i]
         d = {"type": t["kind"]}
+        tls = bool(t.get("tls"))      # a TLS transport: wss:// / rss:// URL, (asyncio) endpoint dict with "tls": True
         if t["kind"] == "websocket":
-            d["url"] = "ws://127.0.0.1:%d/ws" % (9000 + i)
+            d["url"] = "%s://127.0.0.1:%d/ws" % ("wss" if tls else "ws", 9000 + i)
             d["serializers"] = [t["ser"]]
         else:
-            d["url"] = "rs://127.0.0.1:%d" % (9000 + i)
+            d["url"] = "%s://127.0.0.1:%d" % ("rss" if tls else "rs", 9000 + i)
             d["serializer"] = t["ser"]
         if self.world.fw == "tx":
+            # (a user-supplied IStreamClientEndpoint - e.g. SSL4ClientEndpoint / wrapClientTLS(...) for a TLS transport)
             d["endpoint"] = self.tx_endpoint(i)
         else:
             how = t.get("ep", "url")
+            if tls and (how == "unix" or (how == "url" and t["kind"] == "rawsocket")):
+                how = "dict"      # asyncio: TLS over a unix socket / from an rss:// URL is not something the component offers
             if how == "dict":
                 d["endpoint"] = {"type": "tcp", "host": "127.0.0.1", "port": 9000 + i}
+                if tls:
+                    d["endpoint"]["tls"] = True
             elif how == "unix":
                 d["endpoint"] = {"type": "unix", "path": "/tmp/c14-%d.sock" % i}
         for k in ("max_retries", "max_retry_delay", "initial_retry_delay", "retry_delay_growth", "retry_delay_jitter"):
